@@ -199,6 +199,63 @@ dispatch!(mach, M, {
     }
 });
 
+/// Verification hook: rounds `from..to` of E8 on the bit-sliced state (no message injection), reusing `ss` and `l`.
+#[cfg(cryptocorrosion_verif)]
+#[inline(always)]
+pub fn verif_rounds_impl<M: Machine>(
+    mach: M,
+    state: &mut [vec128_storage; 8],
+    from: usize,
+    to: usize,
+) {
+    let mut y = X8::<M>(
+        mach.unpack(state[0]),
+        mach.unpack(state[1]),
+        mach.unpack(state[2]),
+        mach.unpack(state[3]),
+        mach.unpack(state[4]),
+        mach.unpack(state[5]),
+        mach.unpack(state[6]),
+        mach.unpack(state[7]),
+    );
+    for r in from..to {
+        y = ss(y, unsafe {
+            X2Bytes::<M> {
+                bytes: E8_BITSLICE_ROUNDCONSTANT[r],
+            }
+            .x2
+        });
+        y = l(y);
+        let f = match r % 7 {
+            0 => M::u128x1::swap1,
+            1 => M::u128x1::swap2,
+            2 => M::u128x1::swap4,
+            3 => M::u128x1::swap8,
+            4 => M::u128x1::swap16,
+            5 => M::u128x1::swap32,
+            _ => M::u128x1::swap64,
+        };
+        y = X8(y.0, f(y.1), y.2, f(y.3), y.4, f(y.5), y.6, f(y.7));
+    }
+    *state = [
+        y.0.into(),
+        y.1.into(),
+        y.2.into(),
+        y.3.into(),
+        y.4.into(),
+        y.5.into(),
+        y.6.into(),
+        y.7.into(),
+    ];
+}
+
+#[cfg(cryptocorrosion_verif)]
+dispatch!(mach, M, {
+    [pub] fn verif_rounds(state: &mut [vec128_storage; 8], from: usize, to: usize) {
+        verif_rounds_impl(mach, state, from, to);
+    }
+});
+
 #[derive(Clone, Copy)]
 pub struct Compressor {
     cv: [vec128_storage; 8],
